@@ -26,6 +26,7 @@ import (
 	"io"
 	"net/http"
 	"os"
+	"runtime"
 	"sort"
 	"strings"
 	"sync"
@@ -77,7 +78,7 @@ var c46Plans = map[string]c46Plan{
 type c46Req struct {
 	am     string
 	alerts []int // alert numbers, in payload order
-	drain  bool  // issued while the Alertmanager's loop was being stopped (i.e. by stop()'s drain)
+	drain  bool  // issued by stop()'s drain (sendLoop.drainQueue on the call stack), not by the send loop
 	gen    int   // which send loop of this Alertmanager URL issued it (1 = first)
 	reply  chan bool
 }
@@ -270,6 +271,7 @@ func (w *c46World) do(ctx context.Context, _ *http.Client, req *http.Request) (*
 		fmt.Sscanf(a.Labels["alertname"], "a%d", &n)
 		rq.alerts = append(rq.alerts, n)
 	}
+	rq.drain = c46CalledFromDrain()
 	w.arrive(rq)
 	select {
 	case ok := <-rq.reply:
@@ -282,6 +284,25 @@ func (w *c46World) do(ctx context.Context, _ *http.Client, req *http.Request) (*
 	}
 }
 
+// c46CalledFromDrain reports whether the current goroutine is inside sendLoop.drainQueue, i.e.
+// the request is issued by stop()'s drain in stop()'s caller and not by the send loop. (Only used
+// to give the known reordering its narrow signature; when several Alertmanagers are stopped one
+// after the other the model cannot tell from the event alone which of them is already draining.)
+func c46CalledFromDrain() bool {
+	pc := make([]uintptr, 32)
+	n := runtime.Callers(2, pc)
+	frames := runtime.CallersFrames(pc[:n])
+	for {
+		fr, more := frames.Next()
+		if strings.HasSuffix(fr.Function, "(*sendLoop).drainQueue") {
+			return true
+		}
+		if !more {
+			return false
+		}
+	}
+}
+
 // arrive: model side of a request reaching the fake Alertmanager.
 func (w *c46World) arrive(rq *c46Req) {
 	w.mu.Lock()
@@ -291,7 +312,7 @@ func (w *c46World) arrive(rq *c46Req) {
 		w.fails = append(w.fails, vx.Failf("request-to-unknown-alertmanager", "request to %q", rq.am))
 		return
 	}
-	rq.drain, rq.gen = a.draining, a.gens
+	rq.gen = a.gens
 	if len(a.pending) > 0 {
 		w.sawOverlap = true
 	}
@@ -650,9 +671,7 @@ func (w *c46World) Check() *vx.Fail {
 	w.mu.Lock()
 	defer w.mu.Unlock()
 	for _, s := range w.soft {
-		if w.r != nil {
-			w.r.Violation(s.Signature, s.Message, map[string]any{"config": w.name, "ops": append([]string{}, w.hist...)})
-		}
+		c46SoftFound.add(s, w.name, w.hist)
 	}
 	soft := len(w.soft) > 0
 	w.soft = nil
@@ -751,6 +770,52 @@ func (w *c46World) Close() {
 // the check
 // ---------------------------------------------------------------------------
 
+// c46SoftSet collects the soft (known-finding class) violations found by the workers and keeps,
+// per signature, the smallest history (shortest, then lexicographically first, then plan name), so
+// that the reported replay does not depend on worker timing.
+type c46SoftSet struct {
+	mu   sync.Mutex
+	best map[string]c46SoftHit
+	n    map[string]int
+}
+
+type c46SoftHit struct {
+	msg, config string
+	ops         []string
+}
+
+var c46SoftFound = &c46SoftSet{best: map[string]c46SoftHit{}, n: map[string]int{}}
+
+func (c *c46SoftSet) add(f *vx.Fail, config string, hist []string) {
+	c.mu.Lock()
+	defer c.mu.Unlock()
+	c.n[f.Signature]++
+	h := c46SoftHit{f.Message, config, append([]string{}, hist...)}
+	old, ok := c.best[f.Signature]
+	less := func(a, b c46SoftHit) bool {
+		if len(a.ops) != len(b.ops) {
+			return len(a.ops) < len(b.ops)
+		}
+		if x, y := strings.Join(a.ops, " "), strings.Join(b.ops, " "); x != y {
+			return x < y
+		}
+		return a.config < b.config
+	}
+	if !ok || less(h, old) {
+		c.best[f.Signature] = h
+	}
+}
+
+func (c *c46SoftSet) report(r *vx.Run) {
+	c.mu.Lock()
+	defer c.mu.Unlock()
+	for _, sig := range vx.SortedKeys(c.best) {
+		h := c.best[sig]
+		r.Violation(sig, h.msg, map[string]any{"config": h.config, "ops": h.ops})
+		r.Count("soft:"+sig, c.n[sig])
+	}
+}
+
 // c46Sabotaged drops the overflow rule from the reference (self-test only).
 type c46Sabotaged struct{ *c46World }
 
@@ -796,6 +861,7 @@ func TestVerifC46(t *testing.T) {
 		if f := eng.Replay(func() evloop.World { return c46NewWorld(r, rp.Config) }, rp.Ops); f != nil {
 			r.Violation(f.Signature, f.Message, rp)
 		}
+		c46SoftFound.report(r)
 		return
 	}
 	c46SelfTest(t, r, &evloop.Engine{T: t})
@@ -805,7 +871,7 @@ func TestVerifC46(t *testing.T) {
 	}
 	plans := vx.Pick(r,
 		[]plan{{"q2b1-drain", 6}, {"q2b1-nodrain", 6}},
-		[]plan{{"q2b1-drain", 9}, {"q2b1-nodrain", 8}, {"q3b2-drain", 7}, {"q3b2-nodrain", 7}, {"q1b1-drain", 7}})
+		[]plan{{"q2b1-nodrain", 8}, {"q3b2-drain", 7}, {"q3b2-nodrain", 7}, {"q1b1-drain", 7}, {"q2b1-drain", 9}})
 	if v := os.Getenv("VERIF_C46_PLAN"); v != "" { // experiments only, e.g. "q2b1-drain:6"
 		plans = nil
 		for _, p := range strings.Split(v, ",") {
@@ -827,6 +893,7 @@ func TestVerifC46(t *testing.T) {
 		depths[name] = p.depth
 		t.Logf("C46 %s depth %d: states=%d transitions=%d depthCompleted=%d", name, p.depth, res.States, res.Transitions, res.DepthCompleted)
 	}
+	c46SoftFound.report(r)
 	if d := eng.Diverged(); len(d) > 0 {
 		t.Fatalf("determinism guard: %d of %d twice-executed histories diverged, e.g. %s", len(d), eng.Guarded(), d[0])
 	}
